@@ -530,5 +530,6 @@ MIN_OBLIGATIONS = {"quick": 20, "thorough": 20}
 TRUSTED = ["A-GRAPH, A-REAL, own ring engine (see C01)", "structural matcher for if_else(error_code == 0, accepted, input)"]
 ASSUMPTIONS = ["modular: util.rk4, util.sqrt_covariance_predict, util.sqrt_correct by contract (C10); SO3Mrp.right_jacobian (C05), shadow_if_necessary (C07)",
                "rejection frame is equality over the reals: CasADi's if_else computes 0 + x, which maps -0.0 to +0.0",
-               "finiteness of accepted corrections (every divisor / radicand / asin argument in-domain) is NOT decided here",
+               "finiteness of accepted calls (guarded-operations obligations) is decided in REAL arithmetic for the operations outside util.sqrt_correct: a rounding error that pushes an asin / acos argument "
+               "over +-1 or turns a tiny divisor into 0 is not modelled; divisions inside util.sqrt_correct are finite under its contract for well-conditioned factors (C10)",
                "covariance monotonicity P+ <= P is the C10 identity P - P+ = K S K^T at the proved call site"]
